@@ -44,6 +44,8 @@ StmtCons ==
        <<"label", Label("end", Upd(X, 5))>>,
        <<"goto-label", Block(<< Goto("skip"), Upd(X, 1), Label("skip", Upd(X, 2)) >>)>>,
        <<"switch", Switch(Bin("&", A, K(1)), << Case(K(0), Upd(X, 1)), Break, Default(Upd(X, 2)) >>)>>,
+       <<"switch-nolabel", Switch(Bin("&", A, K(1)), << Upd(X, 1) >>)>>,
+       <<"switch-default-only", Switch(Bin("&", A, K(1)), << Default(Upd(X, 2)) >>)>>,
        <<"comma-stmt", ExprS(Comma(Assign(X, "=", Bin("+", X, K(1))), Assign(X, "=", Bin("*", X, K(2)))))>>,
        <<"unknown-call-stmt", ExprS(Call("frobnicate", <<A>>))>>,
        <<"unknown-call0-stmt", ExprS(Call("frobnicate", <<>>))>>,
